@@ -54,6 +54,18 @@ func lkScanCfgs() []lkScanCfg {
 // external (other modules') types whose method calls from run-reachable code are listed
 var lkWatchedExternal = map[string]bool{"regexp.Regexp": true, "gogrep.Pattern": true}
 
+// other modules' types whose pointer-receiver methods do not modify the receiver in a way that matters here: go/types,
+// go/ast, go/token objects are immutable once type-checking is done (their lazily completed parts are go/types' own,
+// internally synchronised business); regexp.Regexp and gogrep.Pattern are judged method by method (gen_run_extcalls)
+func lkReadOnlyExternal(key string) bool {
+	for _, pfx := range []string{"types.", "ast.", "token.", "constant.", "regexp.Regexp", "gogrep.Pattern", "build.Context"} {
+		if strings.HasPrefix(key, pfx) {
+			return true
+		}
+	}
+	return false
+}
+
 type lkWrite struct{ fn, owner, field string }
 
 type lkScanOut struct {
@@ -298,6 +310,239 @@ func (s *lkScanner) classify(f *lkFunc, e ast.Expr, seen map[types.Object]bool) 
 	return unknown
 }
 
+// synchronous higher-order functions of other modules: the callback does not outlive the call
+var lkSyncCallers = map[string]bool{
+	"sort.Slice": true, "sort.SliceStable": true, "sort.Search": true, "go/ast.Inspect": true,
+	"strings.IndexFunc": true, "strings.TrimFunc": true, "strings.Map": true, "strings.FieldsFunc": true,
+}
+
+func (s *lkScanner) innermost(pos token.Pos, scopeStart map[*lkFunc]token.Pos) *lkFunc {
+	var best *lkFunc
+	for _, g := range s.t.funcs {
+		if scopeStart[g] <= pos && pos < g.body.End() {
+			if best == nil || scopeStart[g] >= scopeStart[best] {
+				best = g
+			}
+		}
+	}
+	return best
+}
+
+// does the function only CALL its i-th parameter (directly, or by handing it to a function that only calls it)?
+func (s *lkScanner) callOnlyParam(g *lkFunc, i int, seen map[string]bool) bool {
+	if g == nil || g.obj == nil {
+		return false
+	}
+	sig := g.obj.Type().(*types.Signature)
+	if i >= sig.Params().Len() || (sig.Variadic() && i == sig.Params().Len()-1) {
+		return false
+	}
+	key := fmt.Sprintf("%s#%d", g.name, i)
+	if seen[key] {
+		return true // coinductively: a cycle of pure pass-alongs never stores the value
+	}
+	seen[key] = true
+	pv := sig.Params().At(i)
+	ok := true
+	var stack []ast.Node
+	ast.Inspect(g.body, func(n ast.Node) bool {
+		if n == nil {
+			stack = stack[:len(stack)-1]
+			return true
+		}
+		stack = append(stack, n)
+		id, isID := n.(*ast.Ident)
+		if !isID || s.p.info.Uses[id] != pv {
+			return true
+		}
+		for _, anc := range stack {
+			if _, inLit := anc.(*ast.FuncLit); inLit {
+				ok = false // used by a nested literal: may be called later
+				return true
+			}
+		}
+		if len(stack) < 2 {
+			ok = false
+			return true
+		}
+		call, isCall := stack[len(stack)-2].(*ast.CallExpr)
+		if !isCall {
+			ok = false
+			return true
+		}
+		if call.Fun == ast.Expr(id) {
+			return true
+		}
+		for j, a := range call.Args {
+			if a == ast.Expr(id) {
+				if h := s.t.staticCallee(call); h == nil || !s.callOnlyParam(h, j, seen) {
+					ok = false
+				}
+				return true
+			}
+		}
+		ok = false
+		return true
+	})
+	return ok
+}
+
+func (s *lkScanner) nonEscapingLits(scopeStart map[*lkFunc]token.Pos) map[*ast.FuncLit]bool {
+	type ctx struct {
+		kind string // "call", "go", "arg", "var", "other"
+		call *ast.CallExpr
+		arg  int
+		v    types.Object
+	}
+	ctxOf := map[*ast.FuncLit]ctx{}
+	for _, file := range s.p.files {
+		var stack []ast.Node
+		ast.Inspect(file, func(n ast.Node) bool {
+			if n == nil {
+				stack = stack[:len(stack)-1]
+				return true
+			}
+			stack = append(stack, n)
+			fl, ok := n.(*ast.FuncLit)
+			if !ok || len(stack) < 2 {
+				return true
+			}
+			c := ctx{kind: "other"}
+			switch par := stack[len(stack)-2].(type) {
+			case *ast.CallExpr:
+				if par.Fun == ast.Expr(fl) {
+					c.kind = "call"
+					if len(stack) >= 3 {
+						if _, isGo := stack[len(stack)-3].(*ast.GoStmt); isGo {
+							c.kind = "go"
+						}
+					}
+				} else {
+					for j, a := range par.Args {
+						if a == ast.Expr(fl) {
+							c = ctx{kind: "arg", call: par, arg: j}
+						}
+					}
+				}
+			case *ast.AssignStmt:
+				for j, r := range par.Rhs {
+					if r == ast.Expr(fl) && len(par.Lhs) == len(par.Rhs) {
+						if id, ok := par.Lhs[j].(*ast.Ident); ok {
+							if v, ok := s.objOf(id).(*types.Var); ok && v.Parent() != s.p.pkg.Scope() {
+								c = ctx{kind: "var", v: v}
+							}
+						}
+					}
+				}
+			case *ast.ValueSpec:
+				for j, r := range par.Values {
+					if r == ast.Expr(fl) && len(par.Names) == len(par.Values) {
+						if v, ok := s.p.info.Defs[par.Names[j]].(*types.Var); ok && v.Parent() != s.p.pkg.Scope() {
+							c = ctx{kind: "var", v: v}
+						}
+					}
+				}
+			}
+			ctxOf[fl] = c
+			return true
+		})
+	}
+	// uses of the local variables that hold literals
+	type use struct {
+		pos    token.Pos
+		called bool
+	}
+	uses := map[types.Object][]use{}
+	holders := map[types.Object]bool{}
+	for _, c := range ctxOf {
+		if c.kind == "var" {
+			holders[c.v] = true
+		}
+	}
+	for _, file := range s.p.files {
+		var stack []ast.Node
+		ast.Inspect(file, func(n ast.Node) bool {
+			if n == nil {
+				stack = stack[:len(stack)-1]
+				return true
+			}
+			stack = append(stack, n)
+			id, ok := n.(*ast.Ident)
+			if !ok {
+				return true
+			}
+			v := s.p.info.Uses[id]
+			if v == nil || !holders[v] {
+				return true
+			}
+			u := use{pos: id.Pos()}
+			if len(stack) >= 2 {
+				switch par := stack[len(stack)-2].(type) {
+				case *ast.CallExpr:
+					u.called = par.Fun == ast.Expr(id)
+				case *ast.AssignStmt:
+					for _, l := range par.Lhs {
+						if l == ast.Expr(id) {
+							u.called = true // (re)binding, not a use of the value
+						}
+					}
+				}
+			}
+			uses[v] = append(uses[v], u)
+			return true
+		})
+	}
+	res := map[*ast.FuncLit]bool{}
+	state := map[*ast.FuncLit]int{} // 1 in progress, 2 done
+	var decide func(fl *ast.FuncLit) bool
+	runsWithin := func(pos token.Pos) bool {
+		// the code at pos runs within the invocation of the declared function around it
+		for h := s.innermost(pos, scopeStart); h != nil && h.lit != nil; h = s.innermost(h.lit.Pos()-1, scopeStart) {
+			if !decide(h.lit) {
+				return false
+			}
+		}
+		return true
+	}
+	decide = func(fl *ast.FuncLit) bool {
+		switch state[fl] {
+		case 1:
+			return true // coinductively (a literal that calls itself)
+		case 2:
+			return res[fl]
+		}
+		state[fl] = 1
+		c := ctxOf[fl]
+		ok := false
+		switch c.kind {
+		case "call":
+			ok = true
+		case "arg":
+			if h := s.t.staticCallee(c.call); h != nil {
+				ok = s.callOnlyParam(h, c.arg, map[string]bool{})
+			} else if sel, isSel := c.call.Fun.(*ast.SelectorExpr); isSel {
+				if fn, isFn := s.p.info.Uses[sel.Sel].(*types.Func); isFn && fn.Pkg() != nil {
+					ok = lkSyncCallers[fn.Pkg().Path()+"."+fn.Name()]
+				}
+			}
+		case "var":
+			ok = true
+			for _, u := range uses[c.v] {
+				if !u.called || !runsWithin(u.pos) {
+					ok = false
+				}
+			}
+		}
+		res[fl] = ok
+		state[fl] = 2
+		return ok
+	}
+	for fl := range ctxOf {
+		decide(fl)
+	}
+	return res
+}
+
 // scan one package: write sites of the functions that are not load-only, writers of package-level variables,
 // calls into other packages of the module, method calls on watched external types
 func (t *lkTr) scanPackage(p *lkPkg, prefix string, runRoots, loadRoots []string) (*lkScanOut, error) {
@@ -329,6 +574,52 @@ func (t *lkTr) scanPackage(p *lkPkg, prefix string, runRoots, loadRoots []string
 			}
 		}
 	}
+	// start of every function's own scope (receiver and parameters are declared before the body)
+	scopeStart := map[*lkFunc]token.Pos{}
+	declStart := map[*ast.BlockStmt]token.Pos{}
+	for _, file := range p.files {
+		for _, d := range file.Decls {
+			if fd, ok := d.(*ast.FuncDecl); ok && fd.Body != nil {
+				declStart[fd.Body] = fd.Pos()
+			}
+		}
+	}
+	for _, f := range t.funcs {
+		if f.lit != nil {
+			scopeStart[f] = f.lit.Pos()
+		} else if ps, ok := declStart[f.body]; ok {
+			scopeStart[f] = ps
+		} else {
+			scopeStart[f] = f.body.Pos()
+		}
+	}
+	// the function in whose frame a variable lives: the innermost function whose scope contains the declaration
+	frameOf := func(v types.Object) *lkFunc {
+		var best *lkFunc
+		for _, g := range t.funcs {
+			if scopeStart[g] <= v.Pos() && v.Pos() < g.body.End() {
+				if best == nil || scopeStart[g] >= scopeStart[best] {
+					best = g
+				}
+			}
+		}
+		return best
+	}
+	// function literals that do not outlive the invocation of the function they are written in: invoked in place
+	// (`func() {...}()`, `defer func() {...}()`), handed to a function that only calls its parameter, or bound to a local
+	// variable that is only ever called -- from code that itself runs within that invocation
+	inline := s.nonEscapingLits(scopeStart)
+	parentOf := func(f *lkFunc) *lkFunc {
+		var best *lkFunc
+		for _, g := range t.funcs {
+			if g != f && scopeStart[g] <= f.lit.Pos() && f.lit.End() <= g.body.End() {
+				if best == nil || scopeStart[g] >= scopeStart[best] {
+					best = g
+				}
+			}
+		}
+		return best
+	}
 	set := map[lkWrite]bool{}
 	xset := map[[3]string]bool{}
 	eset := map[[3]string]bool{}
@@ -345,6 +636,26 @@ func (t *lkTr) scanPackage(p *lkPkg, prefix string, runRoots, loadRoots []string
 		put := func(owner, field string) {
 			if live && owner != "local" {
 				set[lkWrite{prefix + f.name, owner, field}] = true
+			}
+		}
+		rootIdent := func(e ast.Expr) *ast.Ident {
+			for {
+				switch x := e.(type) {
+				case *ast.ParenExpr:
+					e = x.X
+				case *ast.IndexExpr:
+					e = x.X
+				case *ast.SliceExpr:
+					e = x.X
+				case *ast.SelectorExpr:
+					e = x.X
+				case *ast.StarExpr:
+					e = x.X
+				case *ast.Ident:
+					return x
+				default:
+					return nil
+				}
 			}
 		}
 		// an element write through a local reference variable: attribute it to where the variable's value comes from
@@ -379,30 +690,46 @@ func (t *lkTr) scanPackage(p *lkPkg, prefix string, runRoots, loadRoots []string
 				}
 			}
 		}
-		rootIdent := func(e ast.Expr) *ast.Ident {
-			for {
-				switch x := e.(type) {
-				case *ast.ParenExpr:
-					e = x.X
-				case *ast.IndexExpr:
-					e = x.X
-				case *ast.SliceExpr:
-					e = x.X
-				case *ast.SelectorExpr:
-					e = x.X
-				case *ast.StarExpr:
-					e = x.X
-				case *ast.Ident:
-					return x
-				default:
-					return nil
-				}
+		// a variable that a function literal captures from a function that runs in the loading phase only (a filter
+		// constructor, initEnv ...) is shared by all later invocations of the literal: Load-time state, not a local
+		captured := func(e ast.Expr) (string, bool) {
+			id := rootIdent(e)
+			if id == nil || f.lit == nil {
+				return "", false
 			}
+			v, ok := s.objOf(id).(*types.Var)
+			if !ok || v.Parent() == p.pkg.Scope() || v.IsField() {
+				return "", false
+			}
+			if f.lit.Pos() <= v.Pos() && v.Pos() < f.lit.End() {
+				return "", false
+			}
+			g := frameOf(v)
+			if g == nil || g == f {
+				return "", false
+			}
+			if loadOnly[g.name] || g.hook {
+				// a chain of literals that are invoked in place runs within g's own invocation
+				for h := f; h != nil && h.lit != nil && inline[h.lit]; {
+					h = parentOf(h)
+					if h == g {
+						return "", false
+					}
+				}
+				return "captured:" + prefix + g.name, true
+			}
+			return "", false // the frame of a function that itself runs during Run
 		}
 		record := func(e ast.Expr, suffix string) {
 			owner, field := t.writeOwner(p, prefix, e)
 			if strings.HasPrefix(owner, "pkgvar:") {
 				addVarWriter(strings.TrimPrefix(owner, "pkgvar:"), f.name)
+			}
+			if owner == "local" || owner == "local-ref" {
+				if co, ok := captured(e); ok {
+					put(co, field+suffix)
+					return
+				}
 			}
 			if owner == "local-ref" {
 				if id := rootIdent(e); id != nil && !strings.Contains(field, ".") {
@@ -475,6 +802,19 @@ func (t *lkTr) scanPackage(p *lkPkg, prefix string, runRoots, loadRoots []string
 							recvT := p.info.Types[sel.X].Type
 							_, exprIsPtr := recvT.Underlying().(*types.Pointer)
 							if ptrRecv && !exprIsPtr && len(sl.Index()) == 1 {
+								if rid, ok := lkStripParens(sel.X).(*ast.Ident); ok {
+									// v.M() with a pointer receiver on a variable that holds the value itself (a
+									// sync.Once / sync.Map / bytes.Buffer ...): &v is taken. A package-level variable is
+									// thereby written by this function; a variable captured from a loading-phase frame
+									// is Load-time state
+									if v, ok := s.objOf(rid).(*types.Var); ok {
+										if v.Parent() == p.pkg.Scope() {
+											addVarWriter(prefix+v.Name(), f.name+"."+m.Name())
+										} else if co, ok := captured(rid); ok {
+											put(co, rid.Name+".&")
+										}
+									}
+								}
 								if fx, ok := lkStripParens(sel.X).(*ast.SelectorExpr); ok {
 									if _, isM, shared := t.sharedField(fx); !(shared && isM) {
 										owner, field := t.writeOwner(p, prefix, fx)
@@ -508,6 +848,24 @@ func (t *lkTr) scanPackage(p *lkPkg, prefix string, runRoots, loadRoots []string
 									ln, _ := types.Unalias(last.Type()).(*types.Named)
 									if !lastPtr && ln != nil && ln.Obj().Pkg() != nil && !strings.HasPrefix(ln.Obj().Pkg().Path(), lkModulePath) {
 										put(lkQualName(p, prefix, holder.Obj().Pkg(), holder.Obj().Name()), last.Name()+".&")
+									}
+								}
+							}
+							if rid, ok := lkStripParens(sel.X).(*ast.Ident); ok && exprIsPtr && ptrRecv {
+								// p.M() through a pointer held by a package-level variable or captured from a loading-phase
+								// frame, M a method of another module's type (its body is not scanned): e.g. a *sync.Map
+								if v, ok := s.objOf(rid).(*types.Var); ok && m.Pkg() != nil && !strings.HasPrefix(m.Pkg().Path(), lkModulePath) {
+									rt0 := sig.Recv().Type().(*types.Pointer).Elem()
+									key := ""
+									if nt, ok := types.Unalias(rt0).(*types.Named); ok && nt.Obj().Pkg() != nil {
+										key = nt.Obj().Pkg().Name() + "." + nt.Obj().Name()
+									}
+									if !lkReadOnlyExternal(key) {
+										if v.Parent() == p.pkg.Scope() {
+											addVarWriter(prefix+v.Name(), f.name+"."+m.Name())
+										} else if co, ok := captured(rid); ok {
+											put(co, rid.Name+".*")
+										}
 									}
 								}
 							}
